@@ -212,6 +212,6 @@ def main():
     json.dump(m, open(os.path.join(VERIF, "MANIFEST.json"), "w"), indent=1)
 
 NA = {}
-HOOK_COMMITS = ["e53c7a7", "ad3b7ad", "3a80227", "d817674", "ce63a79", "e72712f", "cce379a", "f9ae9c3"]
+HOOK_COMMITS = ["e53c7a7", "ad3b7ad", "3a80227", "d817674", "ce63a79", "e72712f", "cce379a", "f9ae9c3", "9a785b3"]
 if __name__ == "__main__":
     main()
